@@ -265,6 +265,23 @@ func checkAuthorize(g *goPartial) authResult {
 	}
 	listsParam := fd.Type.Params.List[len(fd.Type.Params.List)-1].Names[0].Name
 
+	// a recover() turns a panic of the callback into an ordinary return; with an unnamed
+	// result that return yields nil (= approved), whatever the deferred closure assigns
+	hasRecover := false
+	ast.Inspect(fd, func(n ast.Node) bool {
+		if c, ok := n.(*ast.CallExpr); ok {
+			if id, ok := c.Fun.(*ast.Ident); ok && id.Name == "recover" {
+				hasRecover = true
+				res.Sites = append(res.Sites, g.site(c.Pos()))
+			}
+		}
+		return true
+	})
+	if hasRecover && len(fd.Type.Results.List[0].Names) == 0 {
+		res.Violation = g.site(fd.Pos()) + ": authorize recovers from panics but its result is unnamed: after a panic in the authorization callback the function returns the zero value nil (approved) and the controller method runs"
+		return res
+	}
+
 	// locate loops and the auth call
 	var outer, inner *ast.RangeStmt
 	var authAssign *ast.AssignStmt
